@@ -131,6 +131,25 @@ Type *struct_type(void) {
   return new_type(TY_STRUCT, 0, 1);
 }
 
+// Returns the type NODE has after the integer promotions.
+//
+// [https://www.sigbus.info/n1570#6.3.1.1p2] An integer narrower than
+// int is converted to int. So is a bit-field if an int can represent
+// all of its values; its width, not its declared type, decides.
+Type *promoted_type(Node *node) {
+  Type *ty = node->ty;
+  if (!is_integer(ty) || ty->size > ty_int->size)
+    return ty;
+
+  if (ty->size < ty_int->size)
+    return ty_int;
+
+  if (node->kind == ND_MEMBER && node->member->is_bitfield &&
+      node->member->bit_width < ty_int->size * 8)
+    return ty_int;
+  return ty;
+}
+
 static Type *get_common_type(Type *ty1, Type *ty2) {
   if (ty1->base)
     return pointer_to(ty1->base);
@@ -168,7 +187,7 @@ static Type *get_common_type(Type *ty1, Type *ty2) {
 //
 // This operation is called the "usual arithmetic conversion".
 static void usual_arith_conv(Node **lhs, Node **rhs) {
-  Type *ty = get_common_type((*lhs)->ty, (*rhs)->ty);
+  Type *ty = get_common_type(promoted_type(*lhs), promoted_type(*rhs));
   *lhs = new_cast(*lhs, ty);
   *rhs = new_cast(*rhs, ty);
 }
@@ -206,7 +225,7 @@ void add_type(Node *node) {
     node->ty = node->lhs->ty;
     return;
   case ND_NEG: {
-    Type *ty = get_common_type(ty_int, node->lhs->ty);
+    Type *ty = get_common_type(ty_int, promoted_type(node->lhs));
     node->lhs = new_cast(node->lhs, ty);
     node->ty = ty;
     return;
@@ -237,7 +256,7 @@ void add_type(Node *node) {
   case ND_SHL:
   case ND_SHR: {
     // The integer promotions are performed on the (left) operand.
-    Type *ty = get_common_type(ty_int, node->lhs->ty);
+    Type *ty = get_common_type(ty_int, promoted_type(node->lhs));
     node->lhs = new_cast(node->lhs, ty);
     node->ty = ty;
     return;
